@@ -274,7 +274,7 @@ Proof.
   destruct ((2 <? qos) || (mid =? 0)); [exact H|].
   destruct (tit =? TIT_STRING).
   - destruct (negb (has_wildcard name)); [|inv_walk; inv_leaf].
-    pose proof (new_topic_id_view cfg s) as Hv. destruct (new_topic_id cfg s) as [s1 [i|]]; cbn [fst] in Hv;
+    pose proof (register_topic_view cfg s name) as Hv. destruct (register_topic cfg s name) as [s1 [i|]]; cbn [fst] in Hv;
       apply (Inv_view cfg) in Hv; try exact H; inv_walk; inv_leaf.
   - inv_walk; inv_leaf.
 Qed.
